@@ -1038,6 +1038,63 @@ def hand_args_cases():
     return out
 
 
+# ------------------------------------------------------------------ environment: PYTHONPATH
+PP_SCRIPT = '''
+import os
+import pphelper                      # a module in the script's own directory
+def uftrace_begin(ctx):
+    pphelper.log("B %d" % os.getpid())
+def uftrace_entry(ctx):
+    pphelper.log("E %d %d %d %d %s" % (ctx["tid"], ctx["depth"], ctx["timestamp"], ctx["address"], ctx["name"]))
+def uftrace_exit(ctx):
+    pphelper.log("X %d %d %d %d %d %s" % (ctx["tid"], ctx["depth"], ctx["timestamp"], ctx["duration"], ctx["address"], ctx["name"]))
+def uftrace_end():
+    pphelper.log("Z %d" % os.getpid())
+'''
+
+
+def pythonpath_tie(ctx, objdir):
+    """the script's own directory must be importable whatever PYTHONPATH holds (set-up of the interpreter: environment, not model):
+    the callbacks of a Python script that imports a helper from its directory are judged by ok_script against replay under
+    several PYTHONPATH settings, among them entries the script's directory is a proper substring of"""
+    root = os.path.realpath(os.path.join(ctx.scratch, "pp"))
+    sd = os.path.join(root, "scr")
+    for x in (sd, sd + "/lib", sd + "-old", os.path.join(root, "other")):
+        os.makedirs(x, exist_ok=True)
+    open(os.path.join(sd, "pphelper.py"), "w").write("import os\ndef log(s):\n    os.write(1, (s + '\\n').encode())\n")
+    script = os.path.join(sd, "pplog.py")
+    open(script, "w").write(PP_SCRIPT)
+    case = c06.hand_cases()[0]
+    d = os.path.join(ctx.scratch, "ppdata")
+    c06.write_dir(case, d)
+    name_map = c06.name_ids(case)
+    tid_map = {t["tid"]: i for i, t in enumerate(case["tasks"])}
+    syms = c06.sym_table(case)
+    addr_map = {c06.BASE + x[0]: c06.fid(case, i) for i, x in enumerate(syms)}
+    v = {"fold": False, "sel": None, "fields": ["duration", "tid", "addr", "time"], "column": None, "newline": False}
+    o, raw = c06.run_variant(objdir, d, case, v)
+    lines = o[0] if o else [c06.BAD]
+    settings = [("empty", ""), ("unrelated", os.path.join(root, "other")), ("script-dir", sd), ("script-dir/lib", sd + "/lib"),
+                ("script-dir-old", sd + "-old"), ("several", os.path.join(root, "other") + ":" + sd + "/lib:" + sd + "-old"),
+                ("parent-dir", root), ("default", os.path.join(objdir, "python"))]
+    obs = []
+    for tag, pp in settings:
+        rc, out, err = datadir.uftrace(objdir, "script", d, ["-S", script], timeout=60, env={"PYTHONPATH": pp})
+        cbs = parse_callbacks(out, lambda t: tid_map.get(t, 999), lambda n: name_map.get(n, 88888), lambda a: addr_map.get(a, 99999))
+        if rc != 0 and not cbs:
+            cbs = [("?",)]
+        obs.append((("py", None, None), cbs, lines))
+        ctx.case(key=("pythonpath", tag), tags=["env:PYTHONPATH=" + tag], size=len(cbs))
+    res = evaluate(ctx, [(case, obs)], "ppcases")
+    if res is None:
+        return
+    for k in res["violations"][:3] or res["mismatch"][:3]:
+        tag, pp = settings[k]
+        ctx.violation("C18 violated: with PYTHONPATH=%s (%s) a Python script that imports a helper from its own directory does not "
+                      "receive the calls `uftrace replay` shows (%d callbacks)" % (pp, tag, len(obs[k][1])),
+                      {"pythonpath": tag, "value": pp, "callbacks": [list(c) for c in obs[k][1]][:20]}, True)
+
+
 # ------------------------------------------------------------------ entry points
 def common_meta(ctx):
     ctx.rule = ("replay time: a case = one generated task set of C06 x (script language, UFTRACE_FUNCS list or none, --tid "
@@ -1142,6 +1199,7 @@ def run(ctx):
         part = oitems[s:s + chunk]
         verdict_opts(ctx, part, evaluate_opts(ctx, part, "ocases%d" % (s // chunk)))
     args_tie(ctx, objdir, hand_args_cases() + [gen_args_case(rng, k) for k in range(ctx.n(25, 250))])
+    pythonpath_tie(ctx, objdir)
     record_time(ctx, objdir)
     e2e_jump(ctx, objdir)
 
@@ -1154,7 +1212,9 @@ def replay(ctx, obj):
         return
     case = obj.get("case")
     if not case:
-        if obj.get("record_time"):
+        if obj.get("pythonpath"):
+            pythonpath_tie(ctx, objdir)
+        elif obj.get("record_time"):
             record_time(ctx, objdir)
         elif obj.get("e2e_jump") is not None:
             e2e_jump(ctx, objdir)
